@@ -30,10 +30,28 @@ class ModuleLevelReference(OutOfModel):
 # -- Coq syntax ---------------------------------------------------------------
 
 def cstr(s):
+    """A name as a Coq identifier that the case file's header defines once as a string constant
+    (elaborating a string literal costs ~10 nodes per character; an identifier costs one)."""
     for ch in s:
         if not (32 <= ord(ch) < 127):
             raise OutOfModel("non-printable character in name %r" % s)
-    return '"' + s.replace('"', '""') + '"'
+    return "s_" + (s.encode("ascii").hex() or "e")
+
+
+_IDENT = re.compile(r"\bs_([0-9a-f]*|e)\b")
+
+
+def string_definitions(terms):
+    """Coq definitions of every s_<hex> identifier used in `terms`."""
+    seen = set()
+    for t in terms:
+        seen.update(m.group(0) for m in _IDENT.finditer(t))
+    out = []
+    for ident in sorted(seen):
+        h = ident[2:]
+        text = "" if h == "e" else bytes.fromhex(h).decode("ascii")
+        out.append('Definition %s : string := "%s".' % (ident, text.replace('"', '""')))
+    return "\n".join(out) + "\n"
 
 
 def cN(n):
